@@ -1,6 +1,6 @@
 From Coq Require Import String.
 From Coq Require Import List Ascii Bool NArith Arith.
-Require Import Model.Text Model.Ast Model.Scope Model.Ident Model.Fmt Model.Eval Gen.PLimits.
+Require Import Model.Text Model.Paths Model.Ast Model.Scope Model.Ident Model.Fmt Model.Eval Gen.PLimits.
 Require Import Model.Cases.
 Import ListNotations.
 Local Open Scope char_scope.
@@ -31,12 +31,6 @@ Fixpoint fs_lookup (fs : fsys) (p : path) : option (list iunit) :=
   | (q, f) :: r => if path_eqb q p then Some f else fs_lookup r p
   end.
 
-(* "a/b/../c" -> components *)
-Fixpoint split_on (sep : ascii) (x cur : str) : list str :=
-  match x with
-  | [] => [cur]
-  | c :: r => if Ascii.eqb c sep then cur :: split_on sep r [] else split_on sep r (cur ++ [c])
-  end.
 (* the operating system's path walk: "." and "" stay, ".." leaves the directory *)
 Fixpoint walk (acc : list str) (comps : list str) : path :=
   match comps with
@@ -47,20 +41,6 @@ Fixpoint walk (acc : list str) (comps : list str) : path :=
   end.
 Definition resolve (dir : path) (ipath : str) : path := walk (rev dir) (split_on "/" ipath []).
 Definition dirname (p : path) : path := removelast p.
-
-(* os.path.splitext on the last component: the extension starts at the last dot that is not one of its leading dots *)
-Definition basename (p : str) : str := last (split_on "/" p []) [].
-Fixpoint drop_dots (x : str) : str := match x with "." :: r => drop_dots r | _ => x end.
-Fixpoint ext_from (x : str) (cur : option str) : option str :=      (* cur = text from the last dot seen *)
-  match x with
-  | [] => cur
-  | c :: r => if Ascii.eqb c "." then ext_from r (Some ["."]) else ext_from r (match cur with Some e => Some (e ++ [c]) | None => None end)
-  end.
-Definition splitext_ext (p : str) : str := match ext_from (drop_dots (basename p)) None with Some e => e | None => [] end.
-Definition is_less_import (ipath : str) : bool :=
-  let e := splitext_ext ipath in
-  match e with [] => true | _ => str_eqb (lower e) ($".less") end.
-Definition with_ext (ipath : str) : str := match splitext_ext ipath with [] => ipath ++ $".less" | _ => ipath end.
 
 (* the unit list the root parser ends up with: every LESS import replaced by the units of the file it names (looked up relative
    to the directory of the IMPORTING file), recursively; [lvl] is LessParser.importlvl of the parser reading [units] *)
